@@ -30,7 +30,7 @@ def load_known():
 def _matches(entry, prop, clause, meta):
     if entry.get("status", "known") != "known":
         return False           # "fixed" entries suppress nothing
-    if entry["property"] != prop:
+    if entry.get("property") != prop and prop not in entry.get("properties", []):
         return False
     if "clause" in entry and entry["clause"] != clause and clause not in entry.get("clauses", []):
         if not ("clauses" in entry and clause in entry["clauses"]):
